@@ -124,6 +124,13 @@ theorem step_decreases (c : Cfg) (hn : 1 ≤ c.n) (U : List Nat) (cl : Closed c 
     | step hr hs ih => exact invT_step cl (inv_reach hn hr) ih (step_sound hs)
   exact measure_decreases hn cl inv iT (step_sound hs) hsp
 
+example : ∃ s, Reach exCfg s ∧ (decide (measure exCfg [0, 1] s = 69)) = true :=
+  reach_of_run exCfg [(0, .start)] _ (by decide)
+
+/-- at the end of the complete example run the measure is 0 -/
+example : ∃ s, Reach exCfg s ∧ (decide (measure exCfg [0, 1] s = 0 ∧ s.pc 0 = .exited ∧ s.pc 1 = .exited)) = true :=
+  reach_of_run exCfg exTrace _ (by decide)
+
 /-- Termination: if the items reachable from the initial ones through `children` form a finite
 set `U`, there is no infinite execution (of non-spurious steps), for any n ≥ 1 and any schedule;
 in fact the i-th state of any execution has measure at most `measure init0 - i`. -/
